@@ -80,10 +80,10 @@ def emitOne (line : String) : String :=
                 ("rewritten", Json.bool (G'.rules.any (fun r => r.body.hasNode (fun e => match e with | .ualt _ _ => true | _ => false))))] ++
                 -- the hypothesis of the end-to-end theorem for THIS option set
                 (if o.ast && !o.inline then [("grammarOKS", Json.bool (GrammarOKS G')), ("switchSafe", Json.bool (switchSafe L.G G'))]
-                 -- (these two re-expand / re-count per rule and are cubic in the number of rules: evaluated on
-                 -- grammars of at most 40 rules, reported as absent on larger ones)
-                 else if o.ast && o.inline && G'.rules.length ≤ 40 then [("inlineSwitchSafe", Json.bool (inlineSwitchSafe L.G G'))]
-                 else if !o.ast && !o.inline && G'.rules.length ≤ 40 then [("noastSwitchSafe", Json.bool (noastSwitchSafe L.G G')),
+                 -- (these two are evaluated in the cheap form of Proofs/FastCheckDef.lean, proved equal in
+                 -- Proofs/FastCheck.lean: inlineSwitchSafeFast_eq, noastSwitchSafeKfast_eq)
+                 else if o.ast && o.inline then [("inlineSwitchSafe", Json.bool (inlineSwitchSafeFast L.G G'))]
+                 else if !o.ast && !o.inline then [("noastSwitchSafe", Json.bool (noastSwitchSafeKfast (Kall G') L.G G')),
                     -- the -noast fragment (no state-change statements, captures named PegText …) on the ORIGINAL grammar:
                     -- where that fails the -noast theorems do not apply with or without -switch
                     ("grammarOKN", Json.bool (GrammarOKN (Kall L.G) L.G))]
@@ -93,15 +93,14 @@ def emitOne (line : String) : String :=
              -- without -switch: the extra hypothesis of the option set's own theorem (C02_inline_same_as_default,
              -- C07_generated_parser, C07_inline_generated_parser)
              else Json.mkObj (
-               if o.ast && o.inline && L.G.rules.length ≤ 40 then [("grammarOKI", Json.bool (GrammarOKI L.G))]
+               if o.ast && o.inline then [("grammarOKI", Json.bool (GrammarOKIfast L.G))]  -- = GrammarOKI L.G (GrammarOKIfast_eq)
                else if !o.ast && !o.inline then [("grammarOKN", Json.bool (GrammarOKN (Kall L.G) L.G))]
                else if !o.ast && o.inline then [("inlineNoastSafe", Json.bool (inlineNoastSafe L.G)),
                     ("grammarOKN", Json.bool (GrammarOKN (Kall L.G) L.G))]
                else []))
-          -- the hypothesis of the summary theorem `all_options_same_verdict` for THIS option set (the checkers of `i`, `is`, `sn`
-          -- are cubic in the number of rules: evaluated up to 40 rules)
-          let cheap := !((o.inline && o.ast) || (!o.inline && o.switch && !o.ast)) || G'.rules.length ≤ 40
-          let hyps := if cheap then hyps.mergeObj (Json.mkObj [("theoremApplies", Json.bool (theoremApplies o L.G G'))]) else hyps
+          -- the hypothesis of the summary theorem `all_options_same_verdict` for THIS option set (evaluated on every
+          -- program: `theoremApplies` runs the cheap checkers of Proofs/FastCheckDef.lean)
+          let hyps := hyps.mergeObj (Json.mkObj [("theoremApplies", Json.bool (theoremApplies o L.G G'))])
           pure (Json.mkObj [("id", id), ("rules", programJson P), ("nilCase", nilCase),
             ("unusedLabel", unusedLabel), ("header", hj), ("hyps", hyps),
             ("ruleNames", Json.arr (L.G.rules.map (fun r => Json.str r.name)).toArray)])
